@@ -97,8 +97,10 @@ def run(ctx, only=None):
             for n_, v_, c_ in ill:
                 KC.probe_illcond(ctx, drv, KC.gen_illcond(rng, n_, v_, c_), stats, model_side=(n_ <= 60))
             # replicated measurements per location
-            for st_, rp_, v_ in ([(8, 12, "Ordinary"), (6, 20, "Simple")] if ctx.tier == "quick" else
-                                 [(8, 12, "Ordinary"), (6, 20, "Simple"), (12, 40, "Ordinary"), (10, 30, "Simple")]):
+            # (10 x 25 = 250 rows already separates scipy's cut-off max(M,N)*eps from a fixed 1e-15: measured deviation
+            #  1e-9 of the threshold with scipy.linalg.pinv, 1e4 times the threshold with numpy.linalg.pinv)
+            for st_, rp_, v_ in ([(10, 25, "Ordinary"), (10, 30, "Simple")] if ctx.tier == "quick" else
+                                 [(10, 25, "Ordinary"), (10, 30, "Simple"), (12, 40, "Ordinary"), (20, 20, "Simple"), (15, 30, "Ordinary")]):
                 KC.probe_replicates(ctx, rng, st_, rp_, stats, v_)
     finally:
         if drv:
@@ -111,5 +113,7 @@ def replay(ctx, path):
     rec = json.load(open(path))
     print(json.dumps({k: rec[k] for k in ("stage", "what")}, indent=1))
     spec = (rec.get("case") or {}).get("spec")
+    if rec.get("key") in ("dup:replicates", "fit_variogram") or not spec or "pos" not in spec:
+        spec = None          # generated probe families (replicates, auto-fit): re-run the whole check with the recorded seed
     run(ctx, only=spec)
     return ctx.finish()
